@@ -94,7 +94,9 @@ func c04Allocated() uint64 {
 
 // c04Try runs one decode and the follow-up operations on what it returns, reporting panics and allocation blow-ups.
 func c04Try(t *engine.T, e c04Entry, kind string, in []byte) {
-	t.Step(func() string { return fmt.Sprintf("%s input (%s, %d bytes) hex=%s", e.name, kind, len(in), hex.EncodeToString(trim(in, 256))) })
+	t.Step(func() string {
+		return fmt.Sprintf("%s input (%s, %d bytes) hex=%s", e.name, kind, len(in), hex.EncodeToString(trim(in, 256)))
+	})
 	key := func(sym string) string { return "C04|" + e.name + "|" + kind + "|" + sym }
 	data := append([]byte(nil), in...) // decoders may keep or scribble on their input
 	var v any
@@ -354,8 +356,8 @@ func init() {
 			}
 			return "byte strings of length <= 1; level-0/1(q) seeds x truncations (every byte) x single token deviations over 7 tokens; gob positions x 7 values"
 		},
-		Pre:          c04Audit,
-		WorkerVMemKB: 24 << 20, // 24 GiB of address space per worker: far above normal use, far below the machine
+		Pre:           c04Audit,
+		WorkerVMemKB:  24 << 20, // 24 GiB of address space per worker: far above normal use, far below the machine
 		DeadlineQuick: 6 * time.Minute, DeadlineThorough: 60 * time.Minute,
 		Run: c04Run,
 	})
@@ -398,7 +400,9 @@ func c04Run(c *engine.Ctx) {
 		}
 	}
 	jsonBatch := func(e c04Entry, seed []byte) {
-		c.Do("C04|"+e.name, func() string { return fmt.Sprintf("%s on seed %s, its truncations and single-token deviations", e.name, trim(seed, 200)) }, func(t *engine.T) {
+		c.Do("C04|"+e.name, func() string {
+			return fmt.Sprintf("%s on seed %s, its truncations and single-token deviations", e.name, trim(seed, 200))
+		}, func(t *engine.T) {
 			n := int64(0)
 			step := 1
 			if len(seed) > 600 {
@@ -483,7 +487,9 @@ func c04Run(c *engine.Ctx) {
 		}
 	}
 	gobBatch := func(e c04Entry, seed []byte) {
-		c.Do("C04|"+e.name, func() string { return fmt.Sprintf("%s on gob seed %s…, its truncations and single-byte deviations", e.name, hex.EncodeToString(trim(seed, 48))) }, func(t *engine.T) {
+		c.Do("C04|"+e.name, func() string {
+			return fmt.Sprintf("%s on gob seed %s…, its truncations and single-byte deviations", e.name, hex.EncodeToString(trim(seed, 48)))
+		}, func(t *engine.T) {
 			n := int64(0)
 			c04GobDeviations(seed, !quick, func(kind string, in []byte) {
 				c04Try(t, e, kind, in)
